@@ -336,14 +336,16 @@ pub fn run_exhaustive(out: &mut Out, cfg: &Cfg, shard: usize, nshards: usize) {
     for b in bodies {
         idx += 1;
         if idx % nshards != shard { continue; }
-        let rules = vec![
-            Rule{head: scomplex!(atom!("t"), lv("$X")), body: b},
-            fact("t", atom!("other")),
-            fact("g", SInteger(1)), fact("g", SInteger(2)), fact("h", SInteger(2)), fact("h", SInteger(3)),
-            crule.clone(), fact("c", SInteger(3)),
-        ];
-        let c = Case{rules, query: vec![atom!("t"), lv("$X")], max_calls: 40, extra: 2};
-        emit(out, cfg, &c);
+        // the clause under test first (a later clause exists) and last (nothing after it)
+        for body_first in [true, false] {
+            let main = Rule{head: scomplex!(atom!("t"), lv("$X")), body: b.clone()};
+            let other = fact("t", atom!("other"));
+            let mut rules = if body_first { vec![main, other] } else { vec![other, main] };
+            rules.extend(vec![fact("g", SInteger(1)), fact("g", SInteger(2)), fact("h", SInteger(2)), fact("h", SInteger(3)),
+                              crule.clone(), fact("c", SInteger(3))]);
+            let c = Case{rules, query: vec![atom!("t"), lv("$X")], max_calls: 40, extra: 2};
+            emit(out, cfg, &c);
+        }
     }
 }
 
